@@ -387,3 +387,26 @@ def f32(x):
         return struct.unpack("<f", struct.pack("<f", x))[0]
     except OverflowError:
         return x
+
+
+def scramble(v):
+    """mutate a decoded value in place as a caller might (flip bools, change numbers, empty containers): a later decode
+    must not be affected by what callers did to an earlier result"""
+    if isinstance(v, list):
+        for i, x in enumerate(v):
+            if isinstance(x, (list, dict)):
+                scramble(x)
+            elif isinstance(x, bool):
+                v[i] = not x
+            elif isinstance(x, (int, float)):
+                v[i] = 77
+            else:
+                v[i] = None
+        v.append("scrambled")
+    elif isinstance(v, dict):
+        for k in list(v):
+            if isinstance(v[k], (list, dict)):
+                scramble(v[k])
+            else:
+                v[k] = "scrambled"
+        v["__scrambled__"] = True
